@@ -126,8 +126,30 @@ func (w *world) alias(r *vhlib.Rand, jmax int) uint32 {
 	return uint32(v)
 }
 
+// boundary: b-1, b, b+1 for every bound the code knows about such a field: the piece count,
+// maxPieces (8*2^20, the bound before the metadata is known), blocks per piece, the piece
+// length, the number of metadata blocks, 2^31, 2^32-1
+func (w *world) boundary(r *vhlib.Rand) uint32 {
+	chunks := uint32((len(w.info) + CS - 1) / CS)
+	bs := []uint32{uint32(w.cfg.np), maxPiecesPre, maxPiecesPre, w.cfg.ps / CS, w.cfg.ps, chunks, 1 << 31, 1<<32 - 1, uint32(w.nchunks())}
+	b := bs[r.Intn(len(bs))]
+	switch r.Intn(3) {
+	case 0:
+		return b - 1
+	case 1:
+		return b
+	}
+	return b + 1
+}
+
 func (w *world) idx(r *vhlib.Rand) uint32 {
 	n := uint32(w.cfg.np)
+	if !w.p.VerifState().HasInfo && r.Chance(7) {
+		return maxPiecesPre - 1 // the largest index accepted before the metadata is known
+	}
+	if r.Chance(22) {
+		return w.boundary(r)
+	}
 	if r.Chance(12) {
 		return w.alias(r, w.cfg.np)
 	}
@@ -148,6 +170,9 @@ func (w *world) idx(r *vhlib.Rand) uint32 {
 
 func (w *world) begin(r *vhlib.Rand) uint32 {
 	ps := w.cfg.ps
+	if r.Chance(15) {
+		return w.boundary(r)
+	}
 	if r.Chance(12) {
 		v := w.alias(r, int(ps/CS))
 		if r.Bool() {
@@ -171,6 +196,9 @@ func (w *world) begin(r *vhlib.Rand) uint32 {
 }
 
 func (w *world) lenv(r *vhlib.Rand) uint32 {
+	if r.Chance(15) {
+		return w.boundary(r)
+	}
 	if r.Chance(10) {
 		return w.alias(r, 3)
 	}
@@ -326,7 +354,13 @@ func (w *world) genMsg(r *vhlib.Rand) protocol.Message {
 	case 6:
 		return protocol.NotInterested{}
 	case 7, 8, 9:
-		return protocol.Have{Index: w.idx(r)}
+		ix := w.idx(r)
+		if ix == maxPiecesPre-1 && !r.Chance(20) {
+			// (accepted: 1 MiB of peer bitmap and 16 MiB of availability counters, every
+			// later line of the case hashes them; a few per run are enough for Have)
+			ix = uint32(r.Intn(w.cfg.np))
+		}
+		return protocol.Have{Index: ix}
 	case 10, 11:
 		n := w.cfg.np
 		l := r.PickInt(0, 1, (n+7)/8, (n+7)/8, (n+7)/8+1, 16, r.Intn(40))
@@ -447,7 +481,7 @@ func (w *world) genMsg(r *vhlib.Rand) protocol.Message {
 	case 25:
 		chunks := (len(w.info) + CS - 1) / CS
 		m := protocol.ExtendedMetadata{Subtype: 2, Type: uint8(r.PickInt(0, 0, 0, 1, 2, 3, 255))}
-		m.Piece = r.PickU32(0, 1, uint32(chunks-1), uint32(chunks), uint32(chunks+1), 1<<18, 1<<32-1, uint32(r.Intn(4)), w.alias(r, chunks), w.alias(r, chunks))
+		m.Piece = r.PickU32(0, 1, uint32(chunks-1), uint32(chunks), uint32(chunks+1), 1<<18, 1<<32-1, uint32(r.Intn(4)), w.alias(r, chunks), w.alias(r, chunks), w.boundary(r), w.boundary(r))
 		if m.Type == 1 {
 			m.TotalSize = r.PickU32(0, uint32(len(w.info)), 1, metaCap, 1<<32-1, uint32(len(w.info)), w.alias(r, len(w.info)))
 			m.Data = w.payload(r)
@@ -883,15 +917,21 @@ func oneCase(c *vhlib.Ctx, cfg caseCfg, r *vhlib.Rand, script []string) {
 	}
 	defer w.close()
 	c.Emit(w.newLine(), "ok")
+	// every random choice of the case comes from PRNGs derived from the case seed and the
+	// step number only: what the real scheduler happens to choose (Go map iteration order)
+	// can change the state, never which random numbers a later step or a later case sees
+	sub := func(k uint64) *vhlib.Rand { return vhlib.NewRand(cfg.seed*2862933555777941757 + k*3037000493 + 1) }
+	r = sub(0)
 	if script != nil {
 		w.replayOps(script)
 	} else {
-		w.prelude(r)
+		w.prelude(sub(1))
 		if cfg.burst > 0 && !w.dead {
-			w.burst(r, cfg.burst)
+			w.burst(sub(2), cfg.burst)
 		}
 		steps := 5 + r.Intn(36)
 		for i := 0; i < steps && !w.dead; i++ {
+			r := sub(uint64(100 + i))
 			switch {
 			case r.Chance(6):
 				w.envOp(r)
@@ -904,6 +944,7 @@ func oneCase(c *vhlib.Ctx, cfg caseCfg, r *vhlib.Rand, script []string) {
 				w.pumpPending()
 			}
 		}
+		r = sub(3)
 		if !w.dead && r.Chance(2) {
 			if r.Bool() {
 				w.sendMsg(nil)
